@@ -214,6 +214,12 @@ class Arrow:
     def __getitem__(self, key):
         if isinstance(key, slice):
             if key.step == -1:
+                indices = range(len(self))[key]
+                if len(indices) != len(self):  # the dagger of a sub-arrow
+                    start = indices[-1] if indices else min(
+                        max(key.indices(len(self))[0] + 1, 0), len(self))
+                    stop = indices[0] + 1 if indices else start
+                    return self[start:stop][::-1]
                 boxes = [box[::-1] for box in self.boxes[key]]
                 return self.upgrade(
                     Arrow(self.cod, self.dom, boxes, _scan=False))
